@@ -33,7 +33,7 @@ import sys
 from decimal import Decimal
 
 HERE = os.path.dirname(os.path.abspath(__file__))
-LEAN = os.path.join(HERE, '..', 'lean')
+LEAN = os.environ.get('VERIF_LEAN_DIR') or os.path.join(HERE, '..', 'lean')
 REPO = os.environ.get('VERIF_REPO', '/repo')
 PLANETS = ['Mercury', 'Venus', 'Earth', 'Mars', 'Jupiter', 'Saturn', 'Uranus', 'Neptune']
 CHUNK = 200
